@@ -17,3 +17,4 @@ impl Ser for u16 {
     open spec fn enc(&self) -> Seq<Tok> { seq![Tok::UInt(*self as u64)] }
     #[verifier::external_body] fn serialize(&self, serializer: &mut Serializer) -> (r: Result<(), CborError>) { unimplemented!() }
 }
+pub type TransactionIndex = u32;
